@@ -3,34 +3,6 @@
 From P2 Require Import Base.Prelude Exp.Json Exp.Xml Exp.Html Generated.XmlEscapes.
 Local Open Scope N_scope.
 
-Fixpoint attrs_eqb (a b : list (str * str)) : bool :=
-  match a, b with
-  | [], [] => true
-  | (k, v) :: a', (k', v') :: b' => str_eqb k k' && str_eqb v v' && attrs_eqb a' b'
-  | _, _ => false
-  end.
-
-Fixpoint node_eqb (a b : node) {struct a} : bool :=
-  match a, b with
-  | Tx s, Tx t => str_eqb s t
-  | El n x k, El n' x' k' =>
-      str_eqb n n' && attrs_eqb x x' &&
-      (fix go (l m : list node) : bool :=
-         match l, m with
-         | [], [] => true
-         | p :: l', q :: m' => node_eqb p q && go l' m'
-         | _, _ => false
-         end) k k'
-  | _, _ => false
-  end.
-
-Fixpoint forest_eqb (l m : list node) : bool :=
-  match l, m with
-  | [], [] => true
-  | p :: l', q :: m' => node_eqb p q && forest_eqb l' m'
-  | _, _ => false
-  end.
-
 Fixpoint dval_eqb (a b : dval) {struct a} : bool :=
   match a, b with
   | DS s, DS t => str_eqb s t
